@@ -46,6 +46,22 @@ def inputs(ctx):
             ins.append({"id": "g%d" % n, "case": c, "level": lv})
             n += 1
     units = ["px", "em", "%", "c", "pt"]
+    # lengths whose percentage is, up to float noise or a few thousandths, a multiple of ten (printed
+    # "30%", not "3%" or "30.0%"), for every unit and writer
+    tens = [("2304/10", "pt", 1024, 576), ("432/10", "pt", 1024, 576), ("5978/10", "px", 854, 480), ("534/100", "em", 854, 480),
+            ("3072/10", "px", 1024, 576), ("10004/1000", "%", 640, 360), ("69996/1000", "%", 640, 360), ("20003/1000", "%", 640, 360),
+            ("192", "px", 640, 360), ("448", "px", 640, 360), ("3", "c", 640, 360), ("16", "c", 640, 360)]
+    for val_, u, W, H in tens:
+        for w in ("DFXP", "SAMI", "WebVTT"):
+            for part in ("o", "e"):
+                lay = {"cls": "layout",
+                       "o": {"cls": "point", "x": _sz(val_ if part == "o" else "10", u if part == "o" else "%"), "y": _sz("10", "%")},
+                       "e": {"cls": "stretch", "h": _sz(val_, u), "v": _sz("20", "%")} if part == "e" else NONE,
+                       "p": NONE}
+                c = {"lay": lay, "W": {"has": True, "v": W}, "H": {"has": True, "v": H}, "relativize": True, "fit": False, "writer": w}
+                for lv in LEVELS[w]:
+                    ins.append({"id": "t%d" % n, "case": c, "level": lv})
+                    n += 1
     for k in range(600 if ctx.quick else 20000):
         w = rng.choice(["DFXP", "SAMI", "WebVTT"])
 
